@@ -974,7 +974,7 @@ func (g *Gen) doReturn(st *BState, in *ssa.Return) {
 		if pos == "" {
 			pos = g.posString(g.fn.Pos())
 		}
-		rst := &BState{heap: st.heap, pc: st.pc, inv: cloneInv(st.inv)}
+		rst := &BState{heap: st.heap, pc: st.pc, inv: cloneInv(st.inv), prev: cloneInv(st.prev)}
 		g.checkPkgInvs(rst, "Q", fmt.Sprintf("return%d:pkginv:", g.retCount), pos, "true")
 	}
 	if g.con == nil {
